@@ -321,6 +321,41 @@ def check_adler(rep):
                  sample='%s LIMIT=%d <= %d' % (inc, av['LIMIT'], nmax))
 
 
+def check_inversion(rep):
+    import crcinv, llir, irrules, provenance
+    R = rep.rule('R-CRC-INVERT', 'seed / result inversion convention: for every CRC entry point, the portable C implementation and every asm variant complement the seed before use the same number of times (0 or 1) '
+                 'and complement the returned value the same number of times, on every path (crc32_ieee, crc32_gzip_refl and the crc64 family invert both; crc16_t10dif and crc32_iscsi invert neither)', floor=13, unit='entry points')
+    res, _ = provenance.analyse('default')
+    mod = llir.library('default')
+    groups = {}
+    for sym, info in sorted(res.items()):
+        if info['fam']['family'] not in ('crc', 'crc_copy'):
+            continue
+        base = re.sub(r'_(0[0-2]|by4|by8|by8_02|by16_10|by4_02)$', '', sym)
+        ins, outs = crcinv.asm_convention(info['unit'], info['func'], 'rdx' if 'iscsi' in sym else 'rdi')
+        groups.setdefault(base, []).append((sym, '%s:%s' % (info['unit'].name, sym), ins, outs))
+    for fn, f in sorted(mod.funcs.items()):
+        m = re.match(r'^(crc(?:16|32|64)_\w+)_base$', fn)
+        if m:
+            ins, outs = crcinv.c_convention(f, 2 if 'iscsi' in fn else 0, irrules._strip)
+            groups.setdefault(m.group(1), []).append((fn, mod.where(f, None), ins, outs))
+    for base, members in sorted(groups.items()):
+        R.instance()
+        if len(members) < 2:
+            raise AnalysisBroken('R-CRC-INVERT: entry point %s has a single implementation' % base)
+        conv = set()
+        for sym, where, ins, outs in members:
+            ok = len(ins) == 1 and len(outs) == 1 and all(x in (0, 1) for x in ins | outs)
+            R.check(ok, where, '%s: the seed is used with inversion parities %s and the result is returned with parities %s: not one convention on every path' % (sym, sorted(map(str, ins)), sorted(map(str, outs))),
+                    key='R-CRC-INVERT|%s|paths' % sym)
+            if ok:
+                conv.add((list(ins)[0], list(outs)[0]))
+        want = (1, 1) if re.match(r'^crc32_(ieee|gzip_refl)$|^crc64_', base) else (0, 0)
+        R.check(conv == {want}, members[0][1], 'entry point %s: its implementations use the conventions %s (seed inverted, result inverted); all of them must use %s - a variant that differs returns a different CRC for the same data' %
+                (base, {s_: (list(i_)[0] if len(i_) == 1 else '?', list(o_)[0] if len(o_) == 1 else '?') for s_, _, i_, o_ in members}, want), key='R-CRC-INVERT|%s' % base,
+                sample='%s: %d implementations, convention %s' % (base, len(members), want))
+
+
 def main(tier):
     rep = Report('C04', tier, level='other')
     rep.undecided = UNDECIDED
@@ -342,6 +377,7 @@ def main(tier):
         c04_store.check(rep, units)
     except ImportError:
         pass
+    check_inversion(rep)
     import bounds
     bounds.check(rep, {'crc', 'crc_copy', 'adler'}, 'CRC', 30)
     bounds.check_len_width(rep, {'crc', 'crc_copy', 'adler'}, 'CRC', 31)
